@@ -89,7 +89,14 @@ pub fn check(cx: &Cx, rep: &mut Report) {
                 }
                 Some(Res::Cancelled) => earlier_taken = true,
                 // a parked join future may already have taken the task handle
-                Some(Res::Handle { .. }) if o.op == OpK::JoinPark => earlier_taken = true,
+                // (one that was never polled has not: the handle is taken on the first poll)
+                Some(Res::Handle { .. }) if o.op == OpK::JoinPark => {
+                    if o.arg >= 1 {
+                        earlier_taken = true
+                    } else {
+                        rep.premise("C17.R3.unpolled_join_takes_nothing");
+                    }
+                }
                 None => {
                     // R4: every join resolves once the actor has terminated
                     rep.premise("C17.R4.join_resolves");
